@@ -1,60 +1,4 @@
 // ---- units/lcqueue/part.rs ----
-// R12 models. The output closure: a sink whose send either appends or fails; `never_fails()` = the consumer stays connected.
-pub trait VSink: Sized {
-    spec fn log(&self) -> Seq<DltMessage>;
-    spec fn never_fails(&self) -> bool;
-    fn send(&mut self, m: DltMessage) -> (r: Result<(), DltMessage>)
-        ensures
-            r is Ok ==> final(self).log() == old(self).log().push(m),
-            r is Err ==> final(self).log() == old(self).log(),
-            final(self).never_fails() == old(self).never_fails(),
-            old(self).never_fails() ==> r is Ok;
-}
-// std::collections::VecDeque<DltMessage> (the single global FIFO `buffered_msgs`): assumed contract of the operations used
-pub trait VQueue: Sized {
-    spec fn q(&self) -> Seq<DltMessage>;
-    fn is_empty(&self) -> (r: bool) ensures r == (self.q().len() == 0);
-    fn len(&self) -> (r: usize) ensures r == self.q().len();
-    fn pop_front(&mut self) -> (r: Option<DltMessage>)
-        ensures
-            old(self).q().len() == 0 ==> r is None && final(self).q() == old(self).q(),
-            old(self).q().len() > 0 ==> r == Some(old(self).q()[0]) && final(self).q() == old(self).q().skip(1);
-    fn push_back(&mut self, m: DltMessage) ensures final(self).q() == old(self).q().push(m);
-    // not used by the pinned code; specified so that a change to them is decided, not lost
-    fn pop_back(&mut self) -> (r: Option<DltMessage>)
-        ensures
-            old(self).q().len() == 0 ==> r is None && final(self).q() == old(self).q(),
-            old(self).q().len() > 0 ==> r == Some(old(self).q().last()) && final(self).q() == old(self).q().drop_last();
-    fn push_front(&mut self, m: DltMessage) ensures final(self).q() == seq![m] + old(self).q();
-    // `queue[0]`
-    fn vx_first(&self) -> (r: &DltMessage) requires self.q().len() > 0, ensures *r == self.q()[0];
-}
-// std::collections::HashSet<LifecycleId> (`buffered_lcs`): assumed contract of the operations used
-pub trait VIdSet: Sized {
-    spec fn ids(&self) -> Set<u32>;
-    fn contains(&self, id: &u32) -> (r: bool) ensures r == self.ids().contains(*id);
-    fn remove(&mut self, id: &u32) -> (r: bool) ensures final(self).ids() == old(self).ids().remove(*id), r == old(self).ids().contains(*id);
-    fn is_empty(&self) -> (r: bool) ensures r == (forall|x: u32| !self.ids().contains(x));
-    fn len(&self) -> (r: usize) ensures (r == 0) == (forall|x: u32| !self.ids().contains(x));
-}
-// evmap write handle for the shared lifecycle table (`lcs_w`): an update becomes visible to the readers with the next refresh
-pub trait VLcTable: Sized {
-    spec fn pending(&self) -> Set<u32>;
-    spec fn visible(&self) -> Set<u32>;
-    fn vx_update(&mut self, id: u32)
-        ensures final(self).pending() == old(self).pending().insert(id), final(self).visible() == old(self).visible();
-    fn refresh(&mut self)
-        ensures final(self).visible() == old(self).visible().union(old(self).pending()), final(self).pending() == old(self).pending();
-}
-// K: the lifecycle of every queued message is still buffered or already visible in the table
-pub open spec fn queued_known<Q: VQueue, L: VIdSet, T: VLcTable>(lcs: &L, q: &Q, t: &T) -> bool {
-    forall|i: int| 0 <= i < q.q().len() ==> lcs.ids().contains((#[trigger] q.q()[i]).lifecycle) || t.visible().contains(q.q()[i].lifecycle)
-}
-// J: nothing is queued unless some lifecycle is still buffered (what makes the direct send at the end of the loop body safe)
-pub open spec fn queue_inv<Q: VQueue, L: VIdSet>(lcs: &L, q: &Q) -> bool {
-    (forall|x: u32| !lcs.ids().contains(x)) ==> q.q().len() == 0
-}
-
 // R1: after a merge removed the last buffered lifecycle: flush everything that is queued, before the current message
 //@ extract src/lifecycle/mod.rs region `>>let _removed = ecu_lcs.remove(` .. `$end` in fn parse_lifecycles_buffered_from_stream
 //@   sig pub fn flush_if_unbuffered<Q: VQueue, L: VIdSet, S: VSink>(buffered_lcs: &L, buffered_msgs: &mut Q, outflow: &mut S)
